@@ -467,6 +467,7 @@ def stepSlot (st : DSt) (toks : List String) : DSt × String :=
     let r := toolLine st.nlog mi ae hs ha ps ts cs
     ({ st with nlog := r.1 }, r.2 ++ " tool:live")
   | ["retools", _, _, _] => (st, "ok")   -- re-entrant tool adversary: judged by the harness oracle only
+  | ["gtools", _, _] => (st, "ok")       -- tool_calls as a generator object (truthy even when empty): oracle only
   | _ => (st, "bad-op")
 
 /-- Two slots of live objects (a loop, a swarm and a nucleus each) are alive side by side; `sel 0|1` chooses the
